@@ -201,15 +201,23 @@ theorem g_sizet_false {size : BitVec 64} (h : sec64_load_data_sizet size = false
 structure LoadedSec (tr : List Trans) (b : SecBuf) (img : Bytes) : Prop where
   /-- a resident buffer is `size + 1` bytes long (the NUL terminator; `alloc 1` when `size = 0`) -/
   len : ∀ d, b.data = some d → d.length = b.size.toNat + 1
-  /-- its first `size` bytes are the bytes of the input at the (translated) offset -/
-  bytes : ∀ d, b.data = some d →
-    d.take b.size.toNat = slice img (dataOff tr b.offset).toNat b.size.toNat ∧
+  /-- it is exactly the `size` bytes of the input at the (translated) offset plus the terminator -/
+  exact : ∀ d, b.data = some d →
+    d = slice img (dataOff tr b.offset).toNat b.size.toNat ++ [0] ∧
     (slice img (dataOff tr b.offset).toNat b.size.toNat).length = b.size.toNat
   dsz : ∀ d, b.data = some d → b.dataSize = b.size
   /-- recorded stream size: the input length, or `SIZE_MAX` (translation in use, or the stream
       had failed before: then the section is the zeroed `SHT_NULL` one without data) -/
   ss : (tr = [] ∧ b.streamSize = BitVec.ofNat 64 img.length) ∨
        (b.streamSize = u64max ∧ (tr = [] → isNullOrNobitsTy b.stype = true ∧ b.data = none))
+
+/-- the first `size` bytes of a resident buffer are the bytes of the input at the offset -/
+theorem LoadedSec.bytes {tr img} {b : SecBuf} (h : LoadedSec tr b img) (d : Bytes) (hd : b.data = some d) :
+    d.take b.size.toNat = slice img (dataOff tr b.offset).toNat b.size.toNat ∧
+    (slice img (dataOff tr b.offset).toNat b.size.toNat).length = b.size.toNat := by
+  obtain ⟨h1, h2⟩ := h.exact d hd
+  refine ⟨?_, h2⟩
+  rw [h1]; exact List.take_left' h2
 
 /-- the header-side fields of a section (everything the data requests leave alone) -/
 structure SameHdr (b' b : SecBuf) : Prop where
@@ -359,9 +367,7 @@ theorem secLoadData_spec (c : Cls) (tr : List Trans) (ls : LoadSt) (b : SecBuf) 
         · intro d hd
           simp only [Option.some.injEq] at hd
           subst hd
-          refine ⟨?_, hlen⟩
-          rw [hgot]
-          exact List.take_left' hlen
+          exact ⟨by rw [hgot], hlen⟩
         · intro d _; rfl
     · rw [if_neg h5]
       have hsz : b.size = 0 := by simpa using h5
@@ -372,10 +378,12 @@ theorem secLoadData_spec (c : Cls) (tr : List Trans) (ls : LoadSt) (b : SecBuf) 
           simp only [Option.some.injEq] at hd
           subst hd; simp [hsz]
         · intro d hd
-          simp [hsz, slice]
+          simp only [Option.some.injEq] at hd
+          subst hd
+          simp [hsz, slice, alloc]
         · intro d _; exact hsz.symm
   · rw [if_neg h3]
-    refine ⟨hs, ⟨hb.len, hb.bytes, hb.dsz, hb.ss⟩, by constructor <;> rfl⟩
+    refine ⟨hs, ⟨hb.len, hb.exact, hb.dsz, hb.ss⟩, by constructor <;> rfl⟩
 
 /-- the invariant only looks at the buffer, the size/offset/type and the recorded stream size -/
 theorem LoadedSec.of_same {tr img} {b b' : SecBuf} (h : LoadedSec tr b img)
@@ -384,7 +392,7 @@ theorem LoadedSec.of_same {tr img} {b b' : SecBuf} (h : LoadedSec tr b img)
     LoadedSec tr b' img := by
   refine ⟨?_, ?_, ?_, ?_⟩
   · intro d hd; rw [e2]; exact h.len d (e1 ▸ hd)
-  · intro d hd; rw [e2, e3]; exact h.bytes d (e1 ▸ hd)
+  · intro d hd; rw [e2, e3]; exact h.exact d (e1 ▸ hd)
   · intro d hd; rw [e2, e4]; exact h.dsz d (e1 ▸ hd)
   · rw [e5, e6, e1]; exact h.ss
 
@@ -544,11 +552,18 @@ theorem secLoad_spec (c : Cls) (enc : Enc) (tr : List Trans) (ls : LoadSt) (hdrO
 /-- What holds of every segment the loader produces. -/
 structure LoadedSeg (tr : List Trans) (g : Seg) (img : Bytes) : Prop where
   len : ∀ d, g.data = some d → d.length = g.filesz.toNat + 1
-  bytes : ∀ d, g.data = some d →
-    d.take g.filesz.toNat = slice img (dataOff tr g.offset).toNat g.filesz.toNat ∧
+  exact : ∀ d, g.data = some d →
+    d = slice img (dataOff tr g.offset).toNat g.filesz.toNat ++ [0] ∧
     (slice img (dataOff tr g.offset).toNat g.filesz.toNat).length = g.filesz.toNat
   ss : (tr = [] ∧ g.streamSize = BitVec.ofNat 64 img.length) ∨
        (g.streamSize = u64max ∧ (tr = [] → seg64_load_data_skip g.stype g.filesz = true ∧ g.data = none))
+
+theorem LoadedSeg.bytes {tr img} {g : Seg} (h : LoadedSeg tr g img) (d : Bytes) (hd : g.data = some d) :
+    d.take g.filesz.toNat = slice img (dataOff tr g.offset).toNat g.filesz.toNat ∧
+    (slice img (dataOff tr g.offset).toNat g.filesz.toNat).length = g.filesz.toNat := by
+  obtain ⟨h1, h2⟩ := h.exact d hd
+  refine ⟨?_, h2⟩
+  rw [h1]; exact List.take_left' h2
 
 /-- the `clear(); seekg(off); read(size)` of `segment_impl::load_data` -/
 def segRead (st : IStream) (off size : BitVec 64) : IStream × Bytes :=
@@ -603,7 +618,7 @@ theorem LoadedSeg.of_same {tr img} {g g' : Seg} (h : LoadedSeg tr g img)
     (e5 : g'.streamSize = g.streamSize) (e6 : g'.stype = g.stype) : LoadedSeg tr g' img := by
   refine ⟨?_, ?_, ?_⟩
   · intro d hd; rw [e2]; exact h.len d (e1 ▸ hd)
-  · intro d hd; rw [e2, e3]; exact h.bytes d (e1 ▸ hd)
+  · intro d hd; rw [e2, e3]; exact h.exact d (e1 ▸ hd)
   · rw [e5, e6, e1, e2]; exact h.ss
 
 /-- dropping the data pointer keeps the invariant -/
@@ -680,9 +695,7 @@ theorem segLoadData_spec (c : Cls) (tr : List Trans) (ls : LoadSt) (g : Seg) (im
     · intro d hd
       simp only [Option.some.injEq] at hd
       subst hd
-      refine ⟨?_, hlen⟩
-      rw [hgot]
-      exact List.take_left' hlen
+      exact ⟨by rw [hgot], hlen⟩
   · rw [if_neg h6]
     exact ⟨hst, ⟨fun d hd => (by simp at hd), fun d hd => (by simp at hd), hss⟩, by constructor <;> rfl⟩
 
@@ -1075,5 +1088,83 @@ theorem load_spec (o : Obj) (st : IStream) (isLazy : Bool) :
         ((((st.seekg (trApply o.trans 0)).read 16).1.seekg (trApply o.trans 0)).read (ehdrSize c)).1 rfl
       rw [hd2, hk2] at hp
       exact ⟨r, hr, ⟨hp.trans, hp.sdata, hp.skind, hp.secs, hp.segs, hp.allocs⟩⟩
+
+/-! ### reads that are in range succeed (used by the prefix family C17) -/
+
+theorem IStream.seekg_ok (s : IStream) (p : Int) (hf : s.fail = false) (hp : 0 ≤ p)
+    (hl : p.toNat ≤ s.data.length) : s.seekg p = { s with eof := false, pos := p.toNat } := by
+  unfold IStream.seekg
+  have hp' : ¬ p < 0 := by omega
+  cases hk : s.kind <;> simp [hf, hp', hl, hk]
+
+theorem IStream.read_ok (s : IStream) (n : Nat) (hg : s.good = true) (hl : s.pos + n ≤ s.data.length) :
+    s.read n = ({ s with pos := s.pos + n, gcount := n }, slice s.data s.pos n) := by
+  unfold IStream.read
+  rw [if_neg (by simp [hg]), if_pos (slice_length_of_le hl)]
+
+/-- an isolated read of a range inside the stream is complete, delivers the range and leaves
+    the failure state as it was -/
+theorem isolatedRead_inrange (st : IStream) (off n : BitVec 64) (h0 : 0 ≤ off.toInt) (hn : 0 ≤ n.toInt)
+    (hr : off.toNat + n.toNat ≤ st.data.length) :
+    (isolatedRead st off n).2.1 = slice st.data off.toNat n.toNat ∧
+    (isolatedRead st off n).2.2 = true ∧ (isolatedRead st off n).1.fail = st.fail ∧
+    (isolatedRead st off n).1.eof = st.eof := by
+  have hoff := toInt_nonneg_toNat off h0
+  have hs : st.clear.seekg off.toInt = { st.clear with eof := false, pos := off.toNat } := by
+    rw [IStream.seekg_ok _ _ rfl h0 (by rw [hoff]; simp only [IStream.clear_data]; omega), hoff]
+  unfold isolatedRead
+  dsimp only
+  rw [if_neg (by omega), hs, IStream.read_ok _ _ rfl (by simpa [IStream.clear] using hr)]
+  simp [IStream.clear]
+
+/-- a complete table-entry read (no translation) delivered the bytes of the stream at the
+    entry's offset -/
+theorem hdrRead_full (st : IStream) (hdrOff : Int) (n : Nat) (hn : 0 < n)
+    (h : (hdrRead [] st hdrOff n).1.gcount = n) :
+    0 ≤ hdrOff ∧ (hdrRead [] st hdrOff n).2 = slice st.data hdrOff.toNat n ∧
+    hdrOff.toNat + n ≤ st.data.length ∧ st.fail = false ∧ (hdrRead [] st hdrOff n).1.fail = false := by
+  have hf := hdrRead_gcount [] st hdrOff n (by omega)
+  unfold hdrRead at h ⊢
+  have hg := IStream.good_of_gcount _ _ (by rw [h]; omega)
+  obtain ⟨hoff, hpos, -⟩ := IStream.seekg_good _ _ hg
+  obtain ⟨hgot, hle⟩ := IStream.read_full _ _ h hn
+  simp only [trApply] at hoff hpos hgot hle hg ⊢
+  rw [hpos] at hgot hle
+  simp only [IStream.seekg_data, streamSizeOf_data] at hgot hle
+  refine ⟨hoff, hgot, hle, hf, ?_⟩
+  rw [IStream.read_ok _ _ hg (by rw [hpos]; simpa using hle)]
+  exact IStream.good_fail hg
+
+/-- a complete isolated read was at a non-negative offset with a non-negative count -/
+theorem isolatedRead_complete_nonneg (st : IStream) (off n : BitVec 64)
+    (h : (isolatedRead st off n).2.2 = true) (hn : n ≠ 0) : 0 ≤ off.toInt ∧ 0 ≤ n.toInt := by
+  have hn' : 0 < n.toNat := by
+    rcases Nat.eq_zero_or_pos n.toNat with h0 | h0
+    · exact absurd (BitVec.eq_of_toNat_eq (by simpa using h0)) hn
+    · exact h0
+  unfold isolatedRead at h
+  dsimp only at h
+  by_cases hneg : n.toInt < 0
+  · simp [hneg] at h
+  · simp only [hneg, if_false] at h
+    have hgc : ((st.clear.seekg off.toInt).read n.toNat).1.gcount = n.toNat := by simpa using h
+    have hg := IStream.good_of_gcount _ _ (by rw [hgc]; omega)
+    exact ⟨(IStream.seekg_good _ _ hg).1, by omega⟩
+
+/-- data requests never touch the header-side fields (no invariant needed) -/
+theorem secLoadData_sameHdr (c : Cls) (tr : List Trans) (ls : LoadSt) (b : SecBuf) :
+    SameHdr (secLoadData c tr ls b).2.1 b := by
+  rw [secLoadData_eq]
+  repeat' split
+  all_goals (constructor <;> rfl)
+
+theorem secGetData_sameHdr (c : Cls) (tr : List Trans) (ls : LoadSt) (b : SecBuf) :
+    SameHdr (secGetData c tr ls b).2 b := by
+  rw [secGetData_eq]
+  split
+  · split
+    · exact secLoadData_sameHdr c tr ls b
+    · exact SameHdr.trans (by constructor <;> rfl) (secLoadData_sameHdr c tr ls b)
+  · exact SameHdr.refl b
 
 end ElfioVerif
